@@ -5,6 +5,7 @@ CHILDREN = "a5.core.serialization.cell_to_children"
 
 
 SERIALIZE = "a5.core.serialization.serialize"
+GET_RESOLUTION = "a5.core.serialization.get_resolution"
 
 
 def register(reg):
@@ -16,6 +17,15 @@ def register(reg):
                             "cell['segment'] < 5 and cell['S'] >= 0")],
         raises={"ValueError": "cell['resolution'] >= 0 and cell['S'] >= SLIMIT(cell['resolution'])"},
         ensures=[("enc", "result == ENC_CELL(cell)")],
+        result_type="int",
+    ))
+    # get_resolution, for modular use where the level of the argument is symbolic (31 paths otherwise).
+    # Proved against the body by the C05 tasks get_resolution[r=..] (result == r for the id of a level-r cell) together
+    # with the specification lemma RESOF(ENC(cell)) == cell.resolution (tasks lemma/resof[r=..]).
+    reg.add(Contract(
+        GET_RESOLUTION,
+        requires=[("valid-id", "RESOF(index) >= -1")],
+        ensures=[("res", "result == RESOF(index)")],
         result_type="int",
     ))
     # cell_to_children: loops 0 and 1 (faces, segments) iterate over concrete lists of at most 12 and 5
